@@ -290,41 +290,13 @@ def _cast_src_ty(b, rv):
 
 
 def _reached_only_on_cas_failure(b, s, tail, head, blocks):
-    """the CAS result is tested; from the success successor the tail is unreachable inside the loop"""
-    res = s.term['dest']['local']
-    # find the switch testing the result: discriminant(res) or is_ok(&res)/is_err(&res)
-    for bb in sorted(blocks):
-        t = b.term(bb)
-        if t['k'] != 'switch' or not b.dominates(s.bb, bb):
-            continue
-        d = U.def_rvalue(b, t['discr'])
-        succ_ok = None
-        if d and d[0] == 'rv' and d[3]['k'] == 'discr' and d[3]['place']['local'] == res:
-            # Result: Ok = 0, Err = 1
-            for v, tb in t['targets']:
-                if v == 0:
-                    succ_ok = tb
-            if succ_ok is None:
-                vals = [v for v, _ in t['targets']]
-                if vals == [1]:
-                    succ_ok = t['otherwise']
-        elif d and d[0] == 'call' and U.callee_name(d[2]) in ('is_ok', 'is_err'):
-            org = b.origins(d[2]['args'][0])
-            if ('call', s.bb) in org:
-                isok = U.callee_name(d[2]) == 'is_ok'
-                # bool switch [[0, F]] otherwise T
-                f = [tb for v, tb in t['targets'] if v == 0]
-                tr = t['otherwise']
-                if f:
-                    succ_ok = tr if isok else f[0]
-        if succ_ok is None:
-            continue
-        # from the success edge, can we get back to the tail without leaving the loop?
-        inside = b.reach_from(succ_ok, unwind=False, avoid=set(range(b.n)) - blocks | {head}) if succ_ok in blocks else set()
-        if tail in inside or succ_ok == head:
-            return False
-        return True
-    return False
+    """the back-edge source executes only after CAS site s failed"""
+    from .protect import _cas_outcome_facts
+    facts = []
+    for (sbb, succ, val) in U.dominating_branches(b, tail, unwind=False):
+        if sbb in blocks and b.dominates(s.bb, sbb):
+            facts.extend(U.edge_facts(b, sbb, succ))
+    return _cas_outcome_facts(b, s, facts) is False
 
 
 def _changed_guard(cx, b, tail, head, blocks):
@@ -412,17 +384,8 @@ def rule_next_once(fx, col):
                     fresh = any(o[0] == 'call' and U.callee_name(b.term(o[1])) == 'leak' for o in org) and all(o[0] == 'call' for o in org)
                     # no write after a successful publish
                     pubs = [s for s in cx.summ.sites_by_body.get(b.key, ()) if s.cls == 'list_head' and s.op.startswith('compare_exchange')]
-                    after = False
-                    for s in pubs:
-                        head_candidates = [h for h, bl, tl in b.loops() if s.bb in bl]
-                        blocks = set()
-                        for h, bl, tl in b.loops():
-                            if s.bb in bl:
-                                blocks = bl
-                        if not _reached_only_on_cas_failure(b, s, bb, head_candidates[0] if head_candidates else bb, blocks or set(range(b.n))):
-                            # the write can follow a successful CAS
-                            if b.dominates(s.bb, bb) and s.bb != bb:
-                                after = True
+                    from .protect import _on_cas_success
+                    after = any(_on_cas_success(b, s, bb) for s in pubs)
                     col.add('NEXT-ONCE', '%s|write Node.next' % b.fname, fresh and not after and bool(pubs),
                             'Node.next written on a node obtained from Box::leak in the same body (fresh=%s), never after a successful publish (after=%s)' % (fresh, after), b.loc(bb, i))
     col.floor('NEXT-ONCE', 'writes of Node.next', n, 1)
